@@ -7,7 +7,7 @@
    [starts k l] = times of the hand-overs of requests with key k = (remote, message id) in l;
    [last_reply k l None] = the last ACK/RST sent to that remote under that message id in l;
    [Inv] = invariant of all reachable states (C04_reachable). *)
-From Verif Require Import Lib.Py Lib.Tactics Model.C04 Proofs.C04 Proofs.C04Ack.
+From Verif Require Import Lib.Py Lib.Tactics Model.C04 Proofs.C04 Proofs.C04Ack Proofs.C04R6 Proofs.C04R6b Proofs.C04R6c.
 Import ListNotations.
 Open Scope Z_scope.
 
@@ -18,6 +18,21 @@ Print Assumptions C04_reachable.
 Theorem C04_invariant_preserved : forall evs s, Inv s -> Inv (run s evs).
 Proof. exact run_inv. Qed.
 Print Assumptions C04_invariant_preserved.
+
+(* 0. No internal error: from the initial state, over every event list (datagrams of any kind, timers, clock, handlers
+      answering or failing, the transport refusing datagrams or reporting errors), none of the model's KeyError /
+      AssertionError branches (on_timeout, _retransmit, _continue_backlog, _send_initially without monitor, the expiry
+      callback) is ever taken. [Q] = exchange keys unique, one key per remote, every exchange's remote has a backlog,
+      every pending retransmission / empty-ACK timer is the one registered in its exchange / piggy-back opportunity. *)
+Theorem C04_no_exception : forall mid0 u evs t e, ~ In (Exn t e) (outs (run (init mid0 u) evs)).
+Proof. exact no_exception_lemma. Qed.
+Print Assumptions C04_no_exception.
+Theorem C04_tables_consistent : forall mid0 u evs, Q (run (init mid0 u) evs).
+Proof. exact Q_reachable. Qed.
+Print Assumptions C04_tables_consistent.
+Theorem C04_tables_consistent_preserved : forall s e, Inv s -> Q s -> Q (step s e).
+Proof. exact Q_step. Qed.
+Print Assumptions C04_tables_consistent_preserved.
 
 (* 1. At most once: over any event list (any number and timing of copies, timers, handler completions, other
       peers), the hand-overs of requests with one key (remote, mid) are pairwise at least EXCHANGE_LIFETIME apart. *)
@@ -76,6 +91,23 @@ Print Assumptions C04_dup_reply_is_ack.
 Theorem C04_backlog_reachable : forall mid0 u evs, BOK (run (init mid0 u) evs).
 Proof. intros. apply BOK_run; [apply Inv_init | apply BOK_init]. Qed.
 Print Assumptions C04_backlog_reachable.
+
+(* "THE acknowledgement": from the initial state, over any history evs0, first arrival m, any further events inside the
+   lifetime — all ACK-typed messages sent to m's endpoint under m's message id ([acks]: piggy-backed response, empty ACK,
+   every repetition for a copy) are one and the same message ([allsame]). No side condition on the peer. Rests on [W]:
+   no piggy-back opportunity outlives the key it was created for (its empty-ACK timer is due before the key's expiry). *)
+Theorem C04_single_ack : forall mid0 u evs0 m evs,
+  let s0 := run (init mid0 u) evs0 in
+  is_request (i_code m) = true -> aget key_eqb (msg_key m) (recent s0) = None ->
+  let s2 := run (step s0 (Recv m)) evs in
+  now s2 < now s0 + EXCHANGE_LIFETIME ->
+  allsame (acks (msg_key m) (log_since s0 s2)).
+Proof. exact single_ack_lemma. Qed.
+Print Assumptions C04_single_ack.
+Theorem C04_no_stale_opportunity : forall mid0 u evs k,
+  let s := run (init mid0 u) evs in aget key_eqb k (recent s) = None -> cnt k s = 0%nat.
+Proof. intros mid0 u evs k s G. apply cnt_unknown; [apply reachable_inv | apply W_reachable | exact G]. Qed.
+Print Assumptions C04_no_stale_opportunity.
 
 (* 3. Lifetime. (a) inside the lifetime the key is known and nothing with that key is started; *)
 Theorem C04_within_lifetime_is_duplicate : forall s0 m evs, Inv s0 ->
@@ -230,4 +262,12 @@ Example C04_reused_response_object :
      Start 0 2 0 8 [3]; Send 0 0 (ack 8 69 [3] [99; 97; 99; 104; 101; 100]);
      Send 0 0 (ack 7 69 [1] [99; 97; 99; 104; 101; 100]);
      Send 0 1 (ack 7 69 [2] [99; 97; 99; 104; 101; 100])].
+Proof. vm_compute. reflexivity. Qed.
+
+(* acks / allsame are not vacuous: a slow request gets the empty ACK, the separate response is not an ACK, two copies repeat it *)
+Example C04_single_ack_instance :
+  acks (0, 7) (outs (run (init 7 2000000)
+         [Recv (req 0 CON 7 [1] HSlow); Advance 100000;
+          Respond 0 {| a_code := 69; a_payload := [170]; a_nr := None; a_rel := None |};
+          Recv (req 0 CON 7 [1] HSlow); Recv (req 0 CON 7 [1] HSlow)])) = [ack 7 0 [] []; ack 7 0 [] []; ack 7 0 [] []].
 Proof. vm_compute. reflexivity. Qed.
